@@ -1986,9 +1986,9 @@ fn process_dom_node<T: Write>(
                 }),
                 expanded_name!(html "br") => Finished(RenderNode::new_styled(Break, computed)),
                 expanded_name!(html "table") => table_to_render_tree(input, computed, err_out),
-                expanded_name!(html "thead") | expanded_name!(html "tbody") => {
-                    tbody_to_render_tree(input, computed, err_out)
-                }
+                expanded_name!(html "thead")
+                | expanded_name!(html "tbody")
+                | expanded_name!(html "tfoot") => tbody_to_render_tree(input, computed, err_out),
                 expanded_name!(html "tr") => tr_to_render_tree(input, computed, err_out),
                 expanded_name!(html "th") | expanded_name!(html "td") => {
                     td_to_render_tree(input, computed, err_out)
